@@ -67,7 +67,7 @@ CHECKS = {
              "selected extra graph (all others stay EQUAL); with nothing selected every extra mutator fails without change and readers report nothing; set_current succeeds iff "
              "id <= count; add_new returns count+1; the two index maps are independent last-write-wins maps; every step refines an abstract context whose component graphs are C08's "
              "directed-graph spec (so lookups/relations are faithful), and the spec checker proved to accept the model is applied to the implementation's observed runs of ALL contexts. Bulk insertion "
-             "through the Context API has a closed form proved for EVERY n (Context/Bulk.v: base context, and a new extra context with the base staying empty): the oracle of the LARGE histories (up to 1.4*10^5 contextoids).",
+             "through the Context API has a closed form proved for EVERY n (Context/Bulk.v: base context, and a new extra context with the base staying empty): the oracle of the LARGE histories (up to 1.4*10^5 contextoids). The id of the Context itself (unrelated to the extra-context ids) is varied: 0, 1, ids equal to / above the number of extra contexts, 2^63+7.",
         note=LEVEL_NOTE_COMMON + "Axioms: none. Component graphs are C08's UltraGraph model; HashMaps as association lists; contextoids represented by their id.",
         technique="Coq proof (frame lemmas + refinement to abstract context, induction over histories) + differential correspondence + proved spec checker as oracle",
         design="§7 C09"),
@@ -76,7 +76,7 @@ CHECKS = {
              "complementary filters partition the collection; counts are counts and percentages are count/size on the documented scale (as binary64 expressions); the all-X loops are "
              "conjunctions; no member is both inferable and inverse-inferable (so non-inferable is always empty); an assumption is tested from its first verification on, valid only "
              "after a verification returned true, and verify returns the function's verdict. The member predicates (total_cmp, truncating 4-decimal comparison, >=, ==) are modelled "
-             "on binary64 with SpecFloat and correspondence-tested on boundary values; the oracle recomputes every aggregate from the member predicates the implementation reports. Collections of more than 65 536 members, one per counted class in which 99 % of the members belong to that class (so that every count passes 65 536), in the Vec container (thorough: all containers).",
+             "on binary64 with SpecFloat and correspondence-tested on boundary values; the oracle recomputes every aggregate from the member predicates the implementation reports. Collections of more than 65 536 members, one per counted class in which 99 % of the members belong to that class (so that every count passes 65 536), in the Vec container (thorough: all containers). Observation members are also judged against the documented member predicate itself (observation >= threshold and observed_effect == effect, evaluated with the host's IEEE doubles), with both zeros on either side.",
         note=LEVEL_NOTE_COMMON + "Axioms: none for all theorems but two: C18_all_satisfy_gives_exactly_100 / C18_none_satisfies_gives_exactly_0 (percentage exactly 100 / 0 for every collection of 1..2^64 members) use Flocq's specification of IEEE division and depend on the standard library's classical real-number axioms ClassicalDedekindReals.sig_not_dec, ClassicalDedekindReals.sig_forall_dec, FunctionalExtensionality.functional_extensionality_dep, Classical_Prop.classic (Print Assumptions; allow-list of this check). binary64 via Coq.Floats.SpecFloat (pure Z arithmetic); NaN payloads not represented.",
         technique="Coq proof (list-level counting laws, induction over verification histories) + differential correspondence on boundary floats + law checker as oracle",
         design="§7 C18"),
@@ -100,7 +100,7 @@ CHECKS = {
     "C10": dict(
         text="Theorems (Coq): given the path the graph's shortest-path routine returns, reasoning evaluates exactly the causaloids of the path prefix up to and including the first non-true "
              "verdict, in path order, each on its routed observation; the result is the conjunction; all other activation cells are unchanged; the four error cases. The path itself is "
-             "validated per input by C15's proved optimality checker; the extracted checker recomputes the whole call on the model with that path and compares verdict, call log and activation. Long chains (large graphs) with a closed-form answer are part of every run.",
+             "validated per input by C15's proved optimality checker; the extracted checker recomputes the whole call on the model with that path and compares verdict, call log and activation. Long chains (large graphs) with a closed-form answer are part of every run. A concurrent phase (two threads reasoning over the shortest path of one shared chain with opposite data, 1.5*10^5 calls each) requires every verdict to be that call's conjunction (stress, schedule chosen by the OS).",
         note=LEVEL_NOTE_COMMON + "Axioms: none. petgraph astar not modelled (validated per input, C15).",
         technique="Coq proof (induction over the path) + proved path checker (C15) + model recomputation on the returned path as oracle",
         design="§7 C10"),
@@ -136,7 +136,7 @@ CHECKS = {
              "a handler handles the successor of the last sequence it returned from (in order, exactly once, no gaps), only sequences that are completely written and covered by the producer cursor, and "
              "what it sees is intact (slot not re-used, all earlier stages done with it, no later stage touched it); sequence 0 is never delivered (known finding D7). The per-thread programs of the "
              "real code are tied to the model by TRACE VALIDATION: the extracted acceptors (Disruptor/Threads.v) must accept every logged trace operation for operation (kind, location, ordering, "
-             "operand, control flow), AND every logged trace is replayed on the proof models themselves (Disruptor/PipeReplay.v on Pipeline.v, Disruptor/MultiReplay.v on MultiPub.v: each logged operation must be an enabled step of the model in the state reached, with the model's value; replay_sound: an accepted trace ends in a reachable model state, so the theorems apply to the execution just observed). The same facts hold without the atomic-snapshot abstraction and with stale loads (Disruptor/HB.v, hb_delivery). Multi producer under true concurrency (Disruptor/MultiPub.v): everything at or below the cursor - consumers never pass it - is completely written and published, in every interleaving. MULTI-PRODUCER PIPELINES OF ANY TOPOLOGY (Disruptor/MultiPipe.v = MultiPub.v composed with the handler side Handlers.v over any barrier stages; every execution projects to an execution of each component): a handler handles i only if its claimant has published i, i is the successor of what it returned from last, and no producer has claimed the next lap of that slot; logged multi-producer executions are replayed on this product model (Disruptor/MultiPipeReplay.v, accepted => reachable). Monitors on every explored schedule check the property on the implementation itself; multi-producer DELIVERY of everything published is violated (stranding = known finding D8). THE STORAGE (Disruptor/Slots.v mirrors const_array_ring_buffer.rs: data[sequence & mask], mask = N-1, unchecked access): the constructor accepts exactly the powers of two; for every 2^k and every history of writes and reads through any sequence numbers no access is out of bounds and a read returns the last write to a congruent sequence (refinement to a map on residues); the extracted model and its specification are compared with the real RingBuffer driven through DataProvider::get / get_mut for rings of 2 .. 262 144 slots, one probe per index bit plus random histories.",
+             "operand, control flow), AND every logged trace is replayed on the proof models themselves (Disruptor/PipeReplay.v on Pipeline.v, Disruptor/MultiReplay.v on MultiPub.v: each logged operation must be an enabled step of the model in the state reached, with the model's value; replay_sound: an accepted trace ends in a reachable model state, so the theorems apply to the execution just observed). The same facts hold without the atomic-snapshot abstraction and with stale loads (Disruptor/HB.v, hb_delivery). Multi producer under true concurrency (Disruptor/MultiPub.v): everything at or below the cursor - consumers never pass it - is completely written and published, in every interleaving. MULTI-PRODUCER PIPELINES OF ANY TOPOLOGY (Disruptor/MultiPipe.v = MultiPub.v composed with the handler side Handlers.v over any barrier stages; every execution projects to an execution of each component): a handler handles i only if its claimant has published i, i is the successor of what it returned from last, and no producer has claimed the next lap of that slot; logged multi-producer executions are replayed on this product model (Disruptor/MultiPipeReplay.v, accepted => reachable). Monitors on every explored schedule check the property on the implementation itself; multi-producer DELIVERY of everything published is violated (stranding = known finding D8). THE STORAGE (Disruptor/Slots.v mirrors const_array_ring_buffer.rs: data[sequence & mask], mask = N-1, unchecked access): the constructor accepts exactly the powers of two; for every 2^k and every history of writes and reads through any sequence numbers no access is out of bounds and a read returns the last write to a congruent sequence (refinement to a map on residues); the extracted model and its specification are compared with the real RingBuffer driven through DataProvider::get / get_mut for rings of 2 .. 262 144 slots, one probe per index bit plus random histories. The builder's OTHER entry points (RustDisruptorBuilder::new over a custom data provider of any size, also not a power of two; with_single_producer / with_multi_producer, which compute the sequencer's size; one or two stages; both wait strategies) are probed with real threads (harness/ds lagprobe): while the last stage is stalled in its first call the producer must not fill past sequence N, afterwards every event must arrive in order with the payload written for its sequence.",
         note=LEVEL_NOTE_COMMON + "Axioms: none. " + "the deterministic scheduler hooks (cfg deepcausality_rs_deep_causality_verif) make every atomic / mutex / condvar operation and slot access of the real code a scheduling point and log it with its real Ordering; Reading several cursors is abstracted to one step returning any value not above the current values (sound by monotonicity). "
              "Multi-producer delivery is explored, not proved; C11 stale reads are not explored.",
         technique="Coq proof (inductive invariant over a small-step interleaving model) + trace validation of the hooked implementation under a deterministic scheduler + trace monitors",
@@ -150,7 +150,7 @@ CHECKS = {
              "operations per thread) is pinned by trace validation on every explored execution; an independent vector-clock race detector over the Ordering arguments the code REALLY passed runs on "
              "every explored schedule too. MULTI PRODUCER under true concurrency (Disruptor/MultiPub.v + MultiPubHB.v: any number of producers and first-stage consumers, every atomic operation a step, stale cursor "
              "loads): a producer fills a slot only when every consumer is done with its previous occupant, a consumer about to touch sequence i is ordered after every fill made so far to that slot, and a "
-             "producer about to fill is ordered after every consumer access and every fill made so far to that slot. Value level for ANY topology (Disruptor/MultiPipe.v): while a producer fills its claim, every handler of every stage has returned from the previous occupant of each slot. Same-stage mutable handlers race: known finding D9 (excluded from the theorem by stage g <> stage h). THE STORAGE (Disruptor/Slots.v mirrors const_array_ring_buffer.rs): two sequences share a slot iff they are congruent modulo N and every unchecked access is in bounds (theorems, any ring of 2^k slots); the extracted model is compared with the real RingBuffer for rings of 2 .. 262 144 slots.",
+             "producer about to fill is ordered after every consumer access and every fill made so far to that slot. Value level for ANY topology (Disruptor/MultiPipe.v): while a producer fills its claim, every handler of every stage has returned from the previous occupant of each slot. Same-stage mutable handlers race: known finding D9 (excluded from the theorem by stage g <> stage h). THE STORAGE (Disruptor/Slots.v mirrors const_array_ring_buffer.rs): two sequences share a slot iff they are congruent modulo N and every unchecked access is in bounds (theorems, any ring of 2^k slots); the extracted model is compared with the real RingBuffer for rings of 2 .. 262 144 slots. The builder's OTHER entry points (RustDisruptorBuilder::new over a custom data provider of any size, also not a power of two; with_single_producer / with_multi_producer, which compute the sequencer's size; one or two stages; both wait strategies) are probed with real threads (harness/ds lagprobe): while the last stage is stalled in its first call the producer must not fill past sequence N, afterwards every event must arrive in order with the payload written for its sequence.",
         note=LEVEL_NOTE_COMMON + "Axioms: none. Release/acquire semantics are modelled as knowledge transfer (one writer per cursor, so no release sequences are needed); multi-producer happens-before is proved for producers + first-stage consumers (each ready bit its own location: the code packs 64 per word, which only adds synchronisation); later stages of a multi-producer pipeline are monitored per execution. C11 stale reads are not explored by the scheduler (the proof does not depend on read freshness beyond monotone lower bounds... in HB.v loads return the current value).",
         technique="Coq proof (inductive invariants over a per-cursor-read interleaving model with happens-before knowledge) + trace validation of orderings + vector-clock race detection on scheduler-controlled executions",
         design="§7.R C05"),
@@ -168,14 +168,14 @@ CHECKS = {
              "complete is a violation with the schedule as replay). What stays PARTIAL: a spinning or parked thread is modelled as a thread whose step is not enabled (the link parked-and-condition-true => woken is (a) and (c)), "
              "fairness of the OS scheduler is assumed, and the multi-producer pipeline has no termination theorem (it does not terminate: finding D8). Termination is also explored on every run - the "
              "scheduler reports all-finished vs deadlock vs budget exhausted vs panic - for spin and blocking strategies, zero-event pipelines, tiny rings. Found and fixed: drain of an unused single "
-             "producer (D5), stale-watermark underflow (D10). Multi-producer stall: known finding D8. REAL-TIME idle probes (plain build, OS threads): a pipeline left idle for seconds (spin and blocking strategies) must still deliver a further batch and drain / join must return - a wait strategy that gives up after many polls only shows there.",
+             "producer (D5), stale-watermark underflow (D10). Multi-producer stall: known finding D8. REAL-TIME idle probes (plain build, OS threads): a pipeline left idle for seconds (spin and blocking strategies) must still deliver a further batch and drain / join must return - a wait strategy that gives up after many polls only shows there. The manually wired one-producer-per-clone pattern of the multi-producer module documentation (barrier from the sequencer, producer around a CLONE, drained through the clone) must shut down too (harness/ds cloneprobe).",
         note=LEVEL_NOTE_COMMON + "Axioms: none. " + "the deterministic scheduler hooks (cfg deepcausality_rs_deep_causality_verif) make every atomic / mutex / condvar operation and slot access of the real code a scheduling point and log it with its real Ordering; Termination is proved on the spin-style model for the single producer (every run finite, stuck only when complete) and explored otherwise; the progress theorems are on the spin-style model (a blocked thread is a thread whose step is not enabled), the blocking strategy's parking is covered by (a).",
         technique="Coq proof (no-lost-wake-up invariant; progress theorems; termination by a strictly decreasing potential + no stuck state but the complete one) + replay of logged executions on the termination model + scheduler-controlled exploration",
         design="§7.R C06"),
     "C13": dict(
         text="Theorems (Coq, same pipeline model): a stage-(k+1) handler handles sequence i only after EVERY stage-k handler returned from i; it sees the modifications of all earlier stages and "
              "none of later ones while the slot is not re-used; gating the producer on the last stage only suffices because the last stage is the slowest (no handler of any stage is lapped). The same stage-order theorems hold for MULTI-PRODUCER pipelines of any topology (Disruptor/MultiPipe.v: multi-producer sequencer under true concurrency composed with the handler stages). "
-             "Trace validation, replay of every logged execution on the proof model (Disruptor/PipeReplay.v: accepted => reachable state of Pipeline.v, theorem replay_sound) and monitors (stage order, overwrite) on every explored schedule. THE STORAGE (Disruptor/Slots.v mirrors const_array_ring_buffer.rs: data[sequence & mask], mask = N-1, unchecked access): the constructor accepts exactly the powers of two; for every 2^k and every history of writes and reads through any sequence numbers no access is out of bounds and a read returns the last write to a congruent sequence (refinement to a map on residues); the extracted model and its specification are compared with the real RingBuffer driven through DataProvider::get / get_mut for rings of 2 .. 262 144 slots, one probe per index bit plus random histories.",
+             "Trace validation, replay of every logged execution on the proof model (Disruptor/PipeReplay.v: accepted => reachable state of Pipeline.v, theorem replay_sound) and monitors (stage order, overwrite) on every explored schedule. THE STORAGE (Disruptor/Slots.v mirrors const_array_ring_buffer.rs: data[sequence & mask], mask = N-1, unchecked access): the constructor accepts exactly the powers of two; for every 2^k and every history of writes and reads through any sequence numbers no access is out of bounds and a read returns the last write to a congruent sequence (refinement to a map on residues); the extracted model and its specification are compared with the real RingBuffer driven through DataProvider::get / get_mut for rings of 2 .. 262 144 slots, one probe per index bit plus random histories. The builder's OTHER entry points (RustDisruptorBuilder::new over a custom data provider of any size, also not a power of two; with_single_producer / with_multi_producer, which compute the sequencer's size; one or two stages; both wait strategies) are probed with real threads (harness/ds lagprobe): while the last stage is stalled in its first call the producer must not fill past sequence N, afterwards every event must arrive in order with the payload written for its sequence.",
         note=LEVEL_NOTE_COMMON + "Axioms: none. " + "the deterministic scheduler hooks (cfg deepcausality_rs_deep_causality_verif) make every atomic / mutex / condvar operation and slot access of the real code a scheduling point and log it with its real Ordering; ",
         technique="Coq proof (cursor chain along the stages, inductive invariant) + trace validation + trace monitors under a deterministic scheduler",
         design="§7.R C13"),
@@ -190,7 +190,7 @@ CHECKS = {
              "publish() a separate step, any interleaving, consumers moving at any time, any N >= 1: the cursor never covers a sequence whose claimant has not published it (cursor_only_published), "
              "never decreases, concurrent claims are disjoint; and the stranding of finding D8 is a reachable interleaving (stranding_reachable). Every multi-producer execution explored under the scheduler is replayed on that model (Disruptor/MultiReplay.v: claims, bit sets / clears, scan tests, cursor CAS attempts and watermark accesses must be enabled steps with the model's values; an accepted trace ends in a reachable state, in which the cursor covers only published sequences: replay_cursor_only_published). (c) single-producer pipeline: cursor never covers an unwritten sequence. The SAME extracted [check] judges the "
              "implementation's histories (harness/ds seqapi: real sequencers driven directly), whose outputs are also compared with the extracted model; monitors on every explored concurrent schedule "
-             "(multi producer with 2-3 writer threads, rings of 2..128 slots). Back-pressure probes: a claim that must wait by the capacity rule is issued anyway and must not return (sequencers with 0, 1, 2 gating sequences).",
+             "(multi producer with 2-3 writer threads, rings of 2..128 slots). Back-pressure probes: a claim that must wait by the capacity rule is issued anyway and must not return (sequencers with 0, 1, 2 gating sequences). The single-producer sequencer is also driven with sizes that are not powers of two (3, 5, 6, 7, 12). Producer::write (claim + fill + publish through a data provider) is driven directly, empty batches on the multi-producer sequencer included, against the same model and an independent oracle (after every write the cursor is the highest claimed sequence). CLONES of one multi-producer sequencer (the one-producer-per-clone pattern of the module documentation): claims through one clone are disjoint (control); claims through different clones overlap - REFUTED on the model (C14_claims_through_clones_overlap_refuted) and listed as known finding D13.",
         note=LEVEL_NOTE_COMMON + "Axioms: none. " + "the deterministic scheduler hooks (cfg deepcausality_rs_deep_causality_verif) make every atomic / mutex / condvar operation and slot access of the real code a scheduling point and log it with its real Ordering; The multi-producer publish path is proved both sequentially against the BitMap word model (SeqApi) and under true concurrency against the bitmap's specification (one bit per residue, C19) in MultiPub; C11 stale reads are not part of that interleaving model.",
         technique="Coq proof (CAS histories; sequential sequencer models with a bitmap-window invariant; proved-about property checker applied to implementation histories) + trace monitors under a deterministic scheduler",
         design="§7.R C14"),
